@@ -320,7 +320,7 @@ func (lr *lifeRun) mutatingServe(id string, with string) {
 func cmdLife(args []string) {
 	fs := flag.NewFlagSet("life", flag.ExitOnError)
 	trace := fs.String("trace", "", "NDJSON trace to write")
-	mode := fs.String("mode", "hist", "hist | reject | roundtrip | mutate")
+	mode := fs.String("mode", "hist", "hist | multi | reject | roundtrip | mutate")
 	cases := fs.String("cases", "", "histories written by TLC (mode hist)")
 	n := fs.Int("n", 200, "number of cases (random modes)")
 	stride := fs.Int("stride", 1, "mode hist: replay every stride-th history (offset by seed)")
@@ -384,6 +384,79 @@ func cmdLife(args []string) {
 				}
 				ops = append(ops, st.Op.K+":"+st.Op.C+fmt.Sprint(st.Op.B))
 				lr.observe("m")
+			}
+			if len(samples) < 3 {
+				samples = append(samples, ops)
+			}
+		})
+	case "multi":
+		// G: every bounded history over two middlewares written by MultiMC.tla (New / Reconfigure / SetDebug interleaved
+		// with caller-side mutation of arguments and results and with mutating handlers); both middlewares are observed
+		// after every step.
+		idx := 0
+		off := int(seedFromEnv()) % *stride
+		readCases(*cases, func(line []byte) {
+			idx++
+			if (idx+off)%*stride != 0 {
+				return
+			}
+			var hist []struct {
+				K string `json:"k"`
+				I int    `json:"i"`
+				C string `json:"c"`
+				B bool   `json:"b"`
+			}
+			if err := json.Unmarshal(line, &hist); err != nil {
+				fatal("bad history: %v", err)
+			}
+			lr.reset(abSuite)
+			ncases++
+			args := map[string]*cors.Config{} // the Config last handed to middleware i, still owned by the caller
+			pick := func(c string) *cors.Config {
+				switch c {
+				case "A":
+					return cloneConfig(&cfgA)
+				case "B":
+					return cloneConfig(&cfgB)
+				case "invalid":
+					return cloneConfig(&invalid[rng.Intn(len(invalid))].Cfg)
+				}
+				return nil
+			}
+			words := []string{"*", "https://evil.example", "x-evil", "null", "true"}
+			var ops []string
+			for _, st := range hist {
+				id := fmt.Sprintf("m%d", st.I)
+				with := words[rng.Intn(len(words))]
+				switch st.K {
+				case "new":
+					a := pick(st.C)
+					args[id] = a
+					lr.newMW(id, st.C, *a)
+				case "setdebug":
+					lr.setDebug(id, st.B)
+				case "reconf":
+					a := pick(st.C)
+					if a != nil {
+						args[id] = a
+					}
+					lr.reconf(id, st.C, a)
+				case "mutarg":
+					if a := args[id]; a != nil {
+						scribbleConfig(a, with)
+					}
+					t.emit(map[string]any{"ev": "Stutter", "what": "scribbled over the Config last passed to " + id})
+				case "mutresult":
+					if c := lr.mws[id].Config(); c != nil {
+						scribbleConfig(c, with)
+					}
+					t.emit(map[string]any{"ev": "Stutter", "what": "scribbled over " + id + ".Config()"})
+				case "servemut":
+					lr.mutatingServe(id, with)
+				}
+				ops = append(ops, fmt.Sprintf("%s(%s,%s%v)", st.K, id, st.C, st.B))
+				lr.observe("m1")
+				lr.observe("m2")
 			}
 			if len(samples) < 3 {
 				samples = append(samples, ops)
